@@ -1,8 +1,17 @@
 use crate::Cfg;
 use crate::out::Out;
 
+pub mod contains;
+pub mod ctxop;
 pub mod exec;
+/// wrappers around the engine's cfg-guarded verification hooks
+#[path = "../hooks.rs"]
+pub mod hooks;
+pub mod regop;
+pub mod rx;
+pub mod wild;
 pub mod inset;
+pub mod misc;
 pub mod nest;
 pub mod typing;
 pub mod tyenc;
@@ -11,7 +20,15 @@ pub fn run(stream: &str, cfg: Cfg, out: &mut Out) -> bool {
     match stream {
         "inset" => inset::run(cfg, out),
         "tyenc" => tyenc::run(cfg, out),
+        "regop" => regop::run(cfg, out),
+        "ctxop" => ctxop::run(cfg, out),
+        "contains" => contains::run(cfg, out),
+        "wild" => wild::run(cfg, out),
+        "rx" => rx::run(cfg, out),
         "nest" => nest::run(cfg, out),
+        "uses" => misc::run_uses(cfg, out),
+        "json" => misc::run_json(cfg, out),
+        "lit" => misc::run_lit(cfg, out),
         "typing" => typing::run(cfg, out),
         s if s.starts_with("exec-") => exec::run(&s[5..], cfg, out),
         _ => return false,
@@ -24,6 +41,11 @@ pub fn replay_any(line: &str) -> Option<String> {
     match line.split(' ').next()? {
         "inset" => inset::replay(line),
         "tyenc" => tyenc::replay(line),
+        "regop" => regop::replay(line),
+        "ctxop" => ctxop::replay(line),
+        "contains" | "containsb" => contains::replay(line),
+        "wild" | "wildp" | "wildm" => wild::replay(line),
+        "rxscan" | "rxm" | "rx" => rx::replay(line),
         _ => None,
     }
 }
@@ -32,6 +54,11 @@ pub fn replay(stream: &str, op: &str) -> Option<String> {
     match stream {
         "inset" => inset::replay(op),
         "tyenc" => tyenc::replay(op),
+        "regop" => regop::replay(op),
+        "ctxop" => ctxop::replay(op),
+        "contains" => contains::replay(op),
+        "wild" => wild::replay(op),
+        "rx" => rx::replay(op),
         _ => None,
     }
 }
